@@ -20,9 +20,16 @@ Theorem forwarded_values_unchanged : forall client_vars listed n v,
   In (n, v) (forwarded client_vars listed) -> In n listed /\ assoc n client_vars = Some v.
 Proof. exact forwarded_values_are_the_clients. Qed.
 
+(* ... and so is every variable that is the value of a DIRECTIVE argument — `@skip(if: $s)`, `@include(if: $s)` — of a
+   field or of an inline fragment, at any depth (since fix 0156dcf; formerly the listed finding C02-directive-variable) *)
+Theorem directive_argument_variables_listed : forall (ss : list sel) n, In n (directive_top_vars ss) -> In n (variables_list ss).
+Proof. exact directive_variables_are_listed. Qed.
+
 (* Full statement for variables: every variable the sub-request USES (arguments or directives) is listed. *)
 Definition C02_vars_full : Prop := forall ss n, (In n (arg_vars ss) \/ In n (directive_vars ss)) -> In n (variables_list ss).
-(* False of the faithful model and of the code (listed finding C02-directive-variable). *)
+(* Still false of the faithful model: a variable INSIDE a list or object value of a directive argument
+   (`@tagged(with: [$v])`, a directive some service would have to define) is not looked for. The harness has no such
+   directive, so this is a statement about the model only, not a listed finding. *)
 Theorem C02_vars_refuted : ~ C02_vars_full.
 Proof.
   intros H. destruct directive_variables_not_listed as (ss & n & Hin & Hnot). apply Hnot. apply H. now right.
@@ -66,8 +73,8 @@ Theorem C02_header_needs_annotations :
 Proof. eexists. eexists. exact unknown_variable_is_not_declared. Qed.
 Example c02_header_nonvacuous :
   wt ex_types ex_sels = true /\
-  map (header_declares ex_types ex_sels) ["a"; "b"; "c"; "d"; "e"; "f"] =
-    [Some "String"; Some "String!"; Some "Int"; Some "Int"; Some "Float"; None].
+  map (header_declares ex_types ex_sels) ["a"; "b"; "c"; "d"; "e"; "f"; "g"] =
+    [Some "String"; Some "String!"; Some "Int"; Some "Int"; Some "Float"; Some "Boolean!"; Some "Boolean!"].
 Proof. exact ex_header. Qed.
 
 (* ---- ownership: what the planner (extractSelectionSet / createQueryPlanSteps, modelled in Plan/Steps.v) keeps for a
@@ -198,6 +205,7 @@ Example c02_nonvacuous :
 Proof. reflexivity. Qed.
 
 Print Assumptions argument_variables_listed.
+Print Assumptions directive_argument_variables_listed.
 Print Assumptions listed_variables_forwarded.
 Print Assumptions forwarded_values_unchanged.
 Print Assumptions C02_vars_refuted.
